@@ -399,6 +399,9 @@ def run_entry(env, entry):
     if entry == "stream":
         return "".join(str(x) for x in t.stream())
     if entry == "module":
+        if env.is_async:
+            asyncio.run(t.make_module_async())
+            return asyncio.run(t.render_async())
         t.make_module()
         return t.render()
     if entry == "render_async":
@@ -458,6 +461,11 @@ def judge(case, obs):
             return f"expected the marker call to raise, observed {obs}"
         if obs["tb"] != (want_file, line):
             return f"innermost template frame is {obs['tb']}, the raising construct is at {(want_file, line)}"
+        return None
+    if obs["kind"] == "other:TemplateRuntimeError" and any("nofilterhere" in m or "notesthere" in m for m in case["marker"]):
+        # an unknown filter / test inside a branch that may never run is reported when (and where) it is reached
+        if obs["tb"] != (want_file, line):
+            return f"unknown filter/test reported at {obs['tb']}, the construct is at {(want_file, line)}"
         return None
     if obs["kind"] != "syntax":
         return f"expected a TemplateSyntaxError, observed {obs}"
@@ -568,7 +576,7 @@ def run(ctx):
         ctx.obligations += 2
         ctx.obligation_names.append("Gen_dbgparse (regenerated, 2)")
         ctx.broken.append(f"translator gen/dbg_parse_translate.py: TokenStream.expect / Parser.fail left the translatable vocabulary: {e}")
-    n = ctx.size(4000, 40000)
+    n = ctx.size(2500, 25000)
     acc = ([], [])
     for idx in range(n):
         g = Gen(ctx.rng)
